@@ -200,6 +200,14 @@ func c05Shapes(c *chk.Ctx, rng interface{ Intn(int) int }) []*spec.Spec {
 		s.MaxTasks = 2
 		out = append(out, s)
 	}
+	// a sub-stream with more members than buffer slots, joined by one task
+	{
+		s := mk("substreamlong", 9)
+		s.Procs = append(s.Procs, &spec.Proc{Name: "A", Kind: spec.KCmd, Cmd: spec.BuildCmd("A", in, o1, nil, nil, nil)}, &spec.Proc{Name: "SS", Kind: spec.KSubStream},
+			&spec.Proc{Name: "JN", Kind: spec.KCmd, Cmd: spec.BuildCmd("JN", []spec.PortDecl{{Name: "in", Join: "space"}}, o1, nil, nil, nil), Outs: []*spec.Out{{Port: "out", Pattern: "joined.out"}}})
+		s.Conns = append(s.Conns, &spec.Conn{From: "src.out", To: "A.in"}, &spec.Conn{From: "A.out", To: "SS.in"}, &spec.Conn{From: "SS.substream", To: "JN.in"})
+		out = append(out, s)
+	}
 	// a component with its own temp directory (FileSplitter) between processes
 	{
 		s := mk("splitter", 2)
